@@ -9,7 +9,11 @@
 (c) math source: formula ASTs printed in $ $, \\( \\), \\[ \\], equation and inside
     text arguments; the token sequence (reference lexer, blanks dropped) of the
     reconstructed source must equal that of the written formula with user
-    macros expanded (ground truth by construction)."""
+    macros expanded (ground truth by construction).
+(d) the same formulas through the two hand-over points the statement names:
+    the text inside the HTML5 page (read back with html.parser, charrefs
+    decoded -- what MathJax finds in the DOM) and the code Imager.newImage
+    passes to writeImage (what LaTeX would compile for the image)."""
 import re, traceback
 from .. import common
 from ..gen import mathgen
@@ -25,12 +29,12 @@ RULE = ('(a) verbatim bodies of 0-200 characters over printable ASCII, newlines,
 ASSUMPTIONS = ['reference lexer for token sequences of math source', 'user-macro expansion by construction (generator)',
                'plasTeX prints $..$ for \\(..\\) and may print environment delimiters around display formulas: only the payload is compared']
 DECIDING_REACH = ['VerbatimEnvironment.invoke', 'verb.invoke', 'Macro.source']
-DECIDING_COUNTERS = {'verbatim_bodies': 50, 'verb_bodies': 50, 'formulas': 50}
+DECIDING_COUNTERS = {'verbatim_bodies': 50, 'verb_bodies': 50, 'formulas': 50, 'html_payloads': 20, 'imager_payloads': 20}
 
 
 def budget(tier):
     q = tier == 'quick'
-    return {'n_verbatim': 2500 if q else 60000, 'n_verb': 1500 if q else 30000, 'n_math': 1500 if q else 30000, 'case_timeout': 30}
+    return {'n_verbatim': 2500 if q else 60000, 'n_verb': 1500 if q else 30000, 'n_math': 1500 if q else 30000, 'n_handover': 240 if q else 6000, 'case_timeout': 30}
 
 
 def setup(st):
@@ -98,6 +102,12 @@ def cases(seed, tier, shard, nshards):
         g = mathgen.MathGen(r)
         w, e = g.expr(r.choice([1, 2, 3, 4]))
         yield {'kind': 'math', 'written': w, 'expanded': e, 'wrap': r.choice(['$', '$', '\\(', '\\[', 'equation', 'textarg']), 'features': sorted(g.features)}
+    for i in common.sharded(b['n_handover'], shard, nshards):
+        r = common.rng_for(seed, PROP, i, 'h')
+        g = mathgen.MathGen(r)
+        w, e = g.expr(r.choice([1, 2, 3, 4]))
+        yield {'kind': 'handover', 'written': w, 'expanded': e, 'wrap': r.choice(['$', '\\(', '\\[', 'equation', 'textarg']), 'features': sorted(g.features),
+               'renderer_theme': r.choice(['default', 'minimal'])}
 
 
 # ---------------------------------------------------------------------------
@@ -116,6 +126,8 @@ def run(case, st):
             return run_verbatim(case, st)
         if case['kind'] == 'verb':
             return run_verb(case, st)
+        if case['kind'] == 'handover':
+            return run_handover(case, st)
         return run_math(case, st)
     finally:
         common.plastex_reset()
@@ -213,6 +225,96 @@ def payload(node):
         if t.startswith(a) and t.endswith(b) and len(t) >= len(a) + len(b):
             return t[len(a):len(t) - len(b)]
     return s
+
+
+def math_source(case):
+    w, wrap = case['written'], case['wrap']
+    pre = mathgen.preamble()
+    if wrap == '$':
+        body, tag = 'Wq1x $%s$ Wq2x' % w, 'math'
+    elif wrap == '\\(':
+        body, tag = 'Wq1x \\(%s\\) Wq2x' % w, 'math'
+    elif wrap == '\\[':
+        body, tag = 'Wq1x \\[ %s \\] Wq2x' % w, 'displaymath'
+    elif wrap == 'equation':
+        body, tag = 'Wq1x \\begin{equation} %s \\end{equation} Wq2x' % w, 'equation'
+    else:
+        body, tag = 'Wq1x \\textbf{Wq3x $%s$ Wq4x} \\emph{Wq5x} Wq2x' % w, 'math'
+    return '\\documentclass{article}\\usepackage{amsmath}\n%s\\begin{document}%s\n\\end{document}' % (pre, body), tag
+
+
+def strip_delims(s2, tag):
+    s2 = s2.strip()
+    for x, y in (('\\(', '\\)'), ('\\[', '\\]'), ('$', '$'), ('\\begin{%s}' % tag, '\\end{%s}' % tag)):
+        if s2.startswith(x) and s2.endswith(y) and len(s2) >= len(x) + len(y):
+            return s2[len(x):len(s2) - len(y)]
+    return s2
+
+
+def first_diff(a, b):
+    k = 0
+    while k < min(len(a), len(b)) and a[k] == b[k]:
+        k += 1
+    return k
+
+
+def run_handover(case, st):
+    """(d) what reaches MathJax (text of the HTML5 page) and what reaches the image generator (Imager.writeImage)"""
+    import os
+    from ..obs import render as R
+    from plasTeX.Imagers import Imager
+    w, e, wrap = case['written'], case['expanded'], case['wrap']
+    src, tag = math_source(case)
+    want = toks(e)
+    st.feature('handover-wrapper', wrap)
+    try:
+        out = R.render(src, 'HTML5', {('general', 'theme'): case['renderer_theme']})
+    except common.CaseTimeout:
+        raise
+    except Exception as ex:
+        st.violation('handover/render-raises-' + type(ex).__name__, case, '%r raised %s' % (w, traceback.format_exc()[-500:]))
+        return {'nontrivial': True}
+    try:
+        text = ''
+        for name in sorted(os.listdir(out.outdir)):
+            if name.endswith('.html'):
+                pg = R.Page(open(os.path.join(out.outdir, name), encoding='utf-8').read())
+                text += ''.join(t for t, stk in pg.texts if not any(x in ('script', 'style', 'head', 'title') for x in stk))
+        a0 = 'Wq3x' if wrap == 'textarg' else 'Wq1x'
+        a1 = 'Wq4x' if wrap == 'textarg' else 'Wq2x'
+        i, j = text.find(a0), text.find(a1)
+        if i < 0 or j < i:
+            st.violation('handover/html-frame-lost', case, 'markers %s .. %s around the formula not found in the page text' % (a0, a1))
+            return {'nontrivial': True}
+        seg = text[i + len(a0):j]
+        if wrap == 'equation':
+            seg = re.sub(r'\(?\d+\)?\s*$', '', seg.rstrip())      # the equation number printed after the payload
+        seg = strip_delims(seg, tag).replace('\\lt ', '<').replace('\\gt ', '>')
+        st.counters['html_payloads'] += 1
+        got = toks(seg)
+        if got != want:
+            k = first_diff(got, want)
+            st.violation('handover/html-payload', case, 'formula %r (%s): text of the HTML page %r differs at token %d: expected %r, page has %r' % (w, wrap, seg[:200], k, want[k:k + 5], got[k:k + 5]))
+        # image generator
+        nodes = out.doc.getElementsByTagName(tag)
+        if nodes:
+            cap = []
+            im = Imager(out.doc)
+            im.writeImage = lambda fn, code, context='', scale=1.0: cap.append(code)
+            im.newImage(nodes[0])
+            st.counters['imager_payloads'] += 1
+            if len(cap) != 1:
+                st.violation('handover/imager-no-code', case, 'Imager.newImage handed over %d pieces of code for %r' % (len(cap), w))
+            else:
+                got = toks(strip_delims(cap[0], tag))
+                if got != want:
+                    k = first_diff(got, want)
+                    st.violation('handover/imager-payload', case, 'formula %r (%s): code handed to the image generator %r differs at token %d: expected %r, got %r' % (w, wrap, cap[0][:200], k, want[k:k + 5], got[k:k + 5]))
+    finally:
+        out.cleanup()
+        common.plastex_reset()
+    deep = any(f in case['features'] for f in ('frac', 'script', 'array', 'left-right', 'sqrt', 'sqrt-optional', 'user-macro'))
+    return {'nontrivial': deep, 'sample': {'formula': w, 'wrap': wrap, 'stage': 'handover'}}
 
 
 def run_math(case, st):
